@@ -439,6 +439,33 @@ def dispatch (env : Env) (j : Json) : Json :=
           ref := fun a => txt ((alle[a.2]?.bind (fun x => getStr? x "ref")).getD ""),
           alts := fun a => (alle[a.2]?.map (fun x => linesOf x "alts")).getD [] }
         Json.mkObj [("groups", gj (alleleAll al rel groups))]
+  | some "schemes.build" =>
+    -- definitions in load order; the result is compared as a set keyed by annotation
+    let defs : List SchemeDef := (getArr j "defs").map (fun d => {
+      version := (getStr? d "version").getD "", annotation := (getStr? d "annotation").getD "",
+      base := getStr? d "extends",
+      filtered := match d.getObjVal? "filtered" with
+        | .ok (Json.arr a) => some (a.toList.filterMap (fun x => match x with | Json.str s => some s | _ => none))
+        | _ => none,
+      columns := (getArr d "columns").filterMap (fun c => match c with
+        | Json.arr a => match a[0]?, a[1]? with
+          | some (Json.str n), some (Json.str t) => some (n, t)
+          | _, _ => none
+        | _ => none) })
+    let C0 : Ctx := { tbl := Generated.classTable, enums := Generated.enums, H := ⟨fun _ => none⟩ }
+    match checkSchemeData C0 defs with
+    | .error e => Json.mkObj [("exc", Json.str (errName e))]
+    | .ok () =>
+      match buildSchemes { tbl := Generated.classTable, order := Generated.extendClassOrder } defs with
+      | .error e => Json.mkObj [("exc", Json.str (errName e))]
+      | .ok (st, ss) =>
+        if !validateSchemes (noRestrictionsClass :: ss.map (·.2)) then Json.mkObj [("exc", "ValueError")]
+        else Json.mkObj [("schemes", Json.arr (ss.map (fun (a, s) => Json.mkObj [
+          ("annotation", Json.str a), ("version", Json.str s.version),
+          ("names", Json.arr (s.names.map Json.str).toArray),
+          ("mros", Json.arr (s.cols.map (fun p => match mroOf st.tbl p.2 with
+              | some m => Json.arr (m.map (fun c => Json.str (pyNameOf st.tbl c))).toArray
+              | none => Json.null)).toArray)])).toArray)]
   | some "spec.domain" =>
     let S : Spec.SCtx := { enums := Generated.enums, H := floatHostOf j }
     let ty : Option Spec.ColType := match getStr? j "cls" with
